@@ -19,7 +19,8 @@ LEVEL_TEXT = ("Generated orthogonal tables (random cube partitions, any "
               "size; the oracle enumerates all 2^k keys over the table's active "
               "bits and compares first-match routing (route equality, source "
               "superset, default-routing rule), length and failure reports. "
-              "Exhaustive per table, randomised over tables.")
+              "Exhaustive per table, randomised over tables."
+              ' Further classes: orthogonal tables whose merge products are merged again (remerge), one list object refilled and re-minimised, the front end with an empty method chain.')
 LEVEL_NOTE = ("Trusted: the harness's first-match lookup and default-routing "
               "rule. Tables use <= 10 active key bits (<= 12 thorough) and no "
               "'!' bits (key bit set where mask bit clear).")
